@@ -38,11 +38,14 @@ def regions(lines):
     """(start, end) line index ranges of the functions under mutation"""
     names = ['Tree_Left', 'Tree_Right', 'Tree_Get_Parent', 'Tree_Set_Parent', 'Tree_Set_Color', 'Tree_Get_Color',
              'Tree_Set_Black', 'Tree_Set_Red', 'Tree_Is_Red', 'Tree_Is_Black', 'Tree_Sibling', 'Tree_Grandparent',
-             'Tree_Uncle', 'Tree_Replace', 'Tree_Rotate_Left', 'Tree_Rotate_Right', 'Tree_Set_Fix', 'Tree_Rem_Fix']
+             'Tree_Uncle', 'Tree_Replace', 'Tree_Rotate_Left', 'Tree_Rotate_Right', 'Tree_Set_Fix', 'Tree_Rem_Fix',
+             'Tree_Alloc', 'Tree_Maximum', 'Tree_Set', 'Tree_Rem']
+    if '--only' in sys.argv:
+        names = sys.argv[sys.argv.index('--only') + 1].split(',')
     out = []
     for nm in names:
         for i, l in enumerate(lines):
-            if re.match(r'^(static )?[\w\* ]+\b%s\(struct Tree\* m.*\) \{\s*$' % nm, l):
+            if re.match(r'^(static )?[\w\* ]+\b%s\((struct Tree\* m|var self).*\) \{\s*$' % nm, l):
                 j = i + 1
                 while not lines[j].startswith('}'):
                     j += 1
@@ -118,11 +121,15 @@ def run_mutant(d, m, orig):
                 res['oracle'] = 'fail'
                 res['oracle_out'] = 'timeout'
     env = dict(os.environ, CV_REPO=d, CV_SELFTEST='1', CV_EVIDENCE_DIR=os.path.join(d, '_evidence'))
-    r = subprocess.run([os.path.join(VERIF, 'check'), 'C03', '--tier', 'quick'], capture_output=True, text=True, env=env, cwd=VERIF, timeout=900)
+    try:
+        r = subprocess.run([os.path.join(VERIF, 'check'), 'C03', '--tier', 'quick'], capture_output=True, text=True, env=env, cwd=VERIF, timeout=300)
+    except subprocess.TimeoutExpired:
+        res.update(rc=2, rb=False, other=[], broken=['CHECK TIMED OUT'])
+        return res
     ref = [l for l in r.stdout.splitlines() if l.startswith('REFUTED')]
     res['rc'] = r.returncode
-    res['rb'] = any('C03.rb-invariant' in l for l in ref)
-    res['other'] = sorted({l.split()[1] for l in ref if 'C03.rb-invariant' not in l})
+    res['rb'] = any('C03.rb-' in l for l in ref)
+    res['other'] = sorted({l.split()[1] for l in ref if 'C03.rb-' not in l})
     res['broken'] = [l for l in r.stdout.splitlines() if l.startswith('ANALYSIS-BROKEN')][:2]
     return res
 
